@@ -265,6 +265,8 @@ func (c *Cluster) restartLoop() {
 		c.armCrashes(inc, c.Mon.LastFinalizedOf(req.idx)+1)
 		if err := c.startInc(inc); err != nil {
 			c.Mon.restartFailed(inc, err)
+		} else {
+			c.Mon.checkRemembered(inc, req.imageDir)
 		}
 	}
 }
